@@ -35,6 +35,7 @@ func run(seed int64, n int, dir string, _ []string) {
 	scanned := false
 	for seq := 0; stmts < n; seq++ {
 		r := dml.NewSequence(g, o, root, seq, true, 400)
+		r.OnlyFailureLaws = true
 		L := 1 + g.Intn(8)
 		abandon := false
 		// cancellation at EVERY position of a multi-target statement (the first time the tables allow it, and
